@@ -33,7 +33,8 @@ def gen_targeted(rng, n):
     cases = []
     for i in range(n):
         prof = ["rto_chain", "zero_window", "fast_retx", "fast_retx_sack", "bulk_window", "rto_then_ack",
-                "sacked_tail_rto", "reorder_sack", "sacked_tail_rto", "sacked_tail_rto"][i % 10]
+                "sacked_tail_rto", "reorder_sack", "sacked_tail_rto", "sacked_tail_rto", "peer_data_small_wnd",
+                "peer_data_small_wnd"][i % 12]
         isn = rng.choice([100, 65530, 65000, rng.below(65536)])
         cfg = cfg_line(nagle=rng.choice([0, 1]), max_retx=rng.choice([1, 2, 3, 5]),
                        rwnd=rng.choice([1048576, 1048576, 100000, 6000, 3000]), isn=isn,
@@ -161,6 +162,30 @@ def gen_targeted(rng, n):
                     ops.append(msg(base, sack=sack_hex(rng.choice([1, 1, 2])))); ops.append("P")
                     ops.append(msg(last_sent)); ops.append("P")
                     write(rng.choice([20000, 40000])); ops.append("P")
+            elif prof == "peer_data_small_wnd":
+                # two-way traffic: the peer's own ST_DATA (payload above our current segment size, so that our MSS
+                # and with it the congestion controller's unit changes) carries the acknowledgement and a SMALL
+                # window; we always have more to send than that window
+                def data(ack, wnd, plen):
+                    c["ts"] += rng.range(1, 5000)
+                    m = f"M0,{c['peer']},{ack % 65536},{wnd},{c['ts'] % 2**32},{plen},{c.get('pstart', 0) % 251},-"
+                    c["peer"] = (c["peer"] + 1) % 65536
+                    c["pstart"] = c.get("pstart", 0) + plen
+                    return m
+                wnd = rng.choice([600, 1000, 1500, 2000, 3000, 6000])
+                ack = last_sent if rng.below(3) else (snd_una - 1 + rng.range(0, max(0, inflight))) % 65536
+                if rng.below(4):
+                    ops.append(data(ack, wnd, rng.choice([529, 600, 1000, 1400, 1452])))
+                else:
+                    ops.append(msg(ack, wnd=wnd))
+                if rng.below(3) == 0:
+                    ops.append("R100000")
+                ops.append("P")
+                if rng.below(2):
+                    write(rng.choice([600, 5000, 20000]))
+                ops.append("P")
+                if rng.below(4) == 0:
+                    adv(rng.choice([40_000_000, 300_000_000])); ops.append("P")
             elif prof == "bulk_window":
                 wnd = rng.choice([528, 1000, 1056, 3000, 100000])
                 ops.append(msg(last_sent if rng.below(4) else (snd_una + inflight // 2 - 1) % 65536, wnd=wnd))
